@@ -158,7 +158,7 @@ fn res_coq(r: &Res) -> String {
         Res::Val(v) => format!("RVal {}", z(*v)),
         Res::Inserted => "RInserted".into(),
         Res::Exists(v) => format!("RExists {}", z(*v)),
-        Res::Computed(s, t) => format!("RComputed {} {}", oz(s), oz(t)),
+        Res::Computed(s, t, _) => format!("RComputed {} {}", oz(s), oz(t)),
         other => panic!("binsim: result {:?} is outside the model", other),
     }
 }
